@@ -161,8 +161,8 @@ Qed.
 Lemma tbl_handle_req st c r : tbl_eq (fst (handle_req st c r)) st.
 Proof.
   destruct r; cbn [handle_req].
-  - destruct (find_uni _ _); cbn; [apply tbl_apply_dmx|apply tbl_refl].
-  - destruct (find_uni _ _); cbn; [apply tbl_apply_dmx|apply tbl_refl].
+  - destruct (find_uni _ _); cbn; [apply tbl_apply_dmx|repeat split].
+  - destruct (find_uni _ _); cbn; [apply tbl_apply_dmx|repeat split].
   - destruct (find_uni _ _); cbn; apply tbl_refl.
   - destruct on; destruct (find_uni _ _); cbn; repeat split.
   - destruct (find_uni _ _); cbn; repeat split.
